@@ -4,7 +4,8 @@ Stdlib only - imported inside the observed subprocesses.  A snapshot maps "<modu
 rendering of: every module-level binding that is a scalar or a container (dict/list/set/tuple/deque, nested,
 sets and dicts rendered in sorted order so the rendering does not depend on the hash seed), class attributes of
 the classes defined in the module, mutable default arguments of its functions and the fill of lru_caches.
-Functions, classes, compiled regexes and other objects are rendered by kind and name only.  parse()/emit()
+Functions, classes, compiled regexes and other objects are rendered by kind and name only.  Bindings whose name
+starts with `_verif` belong to the REDUINO_VERIF hook (a log the C07 harness reads and clears) and are left out.  parse()/emit()
 must leave the snapshot unchanged (C10: no module-level state; C11: input-independent state is not mutated)."""
 from __future__ import annotations
 
@@ -47,6 +48,8 @@ def snapshot() -> dict:
         for k, v in list(vars(mod).items()):
             if k.startswith("__") and k.endswith("__"):
                 continue
+            if k.lower().startswith("_verif"):      # the add-only verification hook of DESIGN 6.4 (its own log, active only
+                continue                            # under REDUINO_VERIF=1, read and cleared by the C07 harness): not transpiler state
             out[f"{m}.{k}"] = _canon(v)
             if isinstance(v, type) and getattr(v, "__module__", None) == m:
                 for ck, cv in list(vars(v).items()):
